@@ -95,6 +95,13 @@ def replay_file(path, repo, work, root):
     ce = rp.get("counterexample")
     print("replay of %s: obligation %s" % (path, rp.get("obligation")))
     print("verifier: %s" % rp.get("verifier_message"))
+    if ce and ce.get("harness") and ce.get("vals"):
+        import cesearch
+        panicked, transcript = cesearch.run_native(ce["harness"], ce["vals"], repo, work, root)
+        print("harness %s re-run natively on the recorded values %s" % (ce["harness"], [d["signed"] for d in ce.get("kani_any_values_in_call_order", [])]))
+        print(transcript[-1500:])
+        print("REPRODUCED (the harness assertion fails on the real code)" if panicked else "NOT-REPRODUCED (the real code now satisfies the harness on these inputs)")
+        return 1 if panicked else 0
     if not ce or not ce.get("witness"):
         print("no failing input recorded (no-failing-input-found); verifier output:\n" + rp.get("verifier_output", ""))
         return 1
